@@ -103,8 +103,9 @@ var valuePool = []string{"alice@example.com", "bob", "", " leading and trailing 
 func (g *xgen) value() string { return freeXML(g.r, valuePool[g.r.Intn(len(valuePool))]) }
 
 type xgen struct {
-	r   *rand.Rand
-	now time.Time
+	r        *rand.Rand
+	now      time.Time
+	lastEdit bool // the attacker edit being applied is the last one of this case
 }
 
 func sp(s string) *string { return &s }
